@@ -53,7 +53,7 @@ func TestC10(t *testing.T) {
 		scratch = t.TempDir()
 	}
 	kinds := stores.Kinds()
-	perKind := run.Scale(6, 60)
+	perKind := run.Scale(6, 150)
 	ctx := context.Background()
 	caseNo := 0
 	for _, kind := range kinds {
